@@ -43,7 +43,7 @@ static int src_octet(void *d, void *o)
 
 /* ---- allocator with ledger: exact-size heap blocks */
 #define MAXLIVE 16
-static struct { void *live[MAXLIVE]; long allocs, frees, badfree; int failnext; size_t blocksize; } L;
+static struct { void *live[MAXLIVE]; long allocs, frees, badfree; int failnext, slab; size_t blocksize; } L;
 static int l_alloc(void *drv, void **m, size_t n)
 {
     (void)drv;
@@ -60,6 +60,7 @@ static void l_free(void *drv, void *m)
     for (int i = 0; i < MAXLIVE; i++) if (L.live[i] == m && m) { L.live[i] = NULL; L.frees++; xfree(m); return; }
     L.badfree++;
 }
+static int l_slab(void *drv, void **m) { return l_alloc(drv, m, L.blocksize); }
 static long l_live(void) { long k = 0; for (int i = 0; i < MAXLIVE; i++) if (L.live[i]) k++; return k; }
 
 /* ---- backend */
@@ -101,8 +102,9 @@ static void setup(RegP *p, int tr, int mem16, size_t blocksize, Arr *a)
     Source s = OCTET_SOURCE_INIT(src_octet, a);
     Sink k = CHUNK_SINK_INIT(snk, NULL);
     regp_use_channel(p, tr == 0 ? RP_EP_SERIAL : RP_EP_TCP, s, k);
-    BlockAllocator ba = MAKE_GENERIC_BLOCKALLOC(NULL, l_alloc, l_free, blocksize);
-    BA = ba;
+    L.blocksize = blocksize;
+    if (L.slab) { BlockAllocator ba = MAKE_SLAB_BLOCKALLOC(NULL, l_slab, l_free, blocksize); BA = ba; }
+    else { BlockAllocator ba = MAKE_GENERIC_BLOCKALLOC(NULL, l_alloc, l_free, blocksize); BA = ba; }
     regp_use_allocator(p, &BA);
 }
 static void reset_ledger(void) { for (int i = 0; i < MAXLIVE; i++) if (L.live[i]) { xfree(L.live[i]); L.live[i] = NULL; } memset(&L, 0, sizeof L); }
@@ -231,7 +233,8 @@ void adapter_exec(Ev *ev)
         int tr = (int)ev->a[1], mem16 = (int)ev->a[2];
         size_t cap = (size_t)ev->a[3];
         reset_ledger(); memset(&B, 0, sizeof B);
-        L.failnext = (int)ev->a[4];
+        L.failnext = (int)ev->a[4] & 1;
+        L.slab = ((int)ev->a[4] >> 1) & 1;      /* allocator flavour: generic (size passed) or slab (fixed blocks) */
         B.verdict = ev->a[5]; B.vaddr = get_w32(ev->a + 6);
         B.nd = (int)ev->a[8]; B.data = ev->a + 9;
         int at = 9 + B.nd;
